@@ -44,6 +44,10 @@ func zzOpenRevisionFile(r *Replica, isCreate bool) error {
 
 var zzCounterReadFails, zzCounterWriteFails bool
 
+// zzOnCounterIO, when set, runs at the start of every read / write of the counter file
+// (real disk I/O, i.e. a scheduling point)
+var zzOnCounterIO func()
+
 func zzReadRevisionCounter(r *Replica) (int64, error) {
 	if r.revisionFile == nil {
 		return 0, zzErr("BUG: revision file wasn't initialized")
@@ -55,10 +59,17 @@ func zzReadRevisionCounter(r *Replica) (int64, error) {
 	if zzCounterReadFails {
 		return 0, zzErr("fail to read from revision counter file")
 	}
-	return ino.Ctr, nil
+	v := ino.Ctr
+	if zzOnCounterIO != nil {
+		zzOnCounterIO() // the value has been read; the caller has not seen it yet
+	}
+	return v, nil
 }
 
 func zzWriteRevisionCounter(r *Replica, counter int64) error {
+	if zzOnCounterIO != nil {
+		zzOnCounterIO()
+	}
 	if r.revisionFile == nil {
 		return zzErr("BUG: revision file wasn't initialized")
 	}
@@ -141,6 +152,7 @@ func zzInstallFS() *zzfs.FS {
 		return n
 	}
 	zzCounterReadFails, zzCounterWriteFails = false, false
+	zzOnCounterIO = nil
 	zzStartHoleWorker()
 	return fs
 }
